@@ -14,23 +14,28 @@ PROFILES = {
     "buffer": {"task": 5, "buffer": 2, "bufc": 6, "taskc": 2},
     "ind": {"task": 5, "worker": 2, "cumulative": 1, "select": 1, "require": 6, "buffer": 1, "bufc": 2, "ind": 7,
             "indc": 2},
-    "obj": {"task": 5, "worker": 2, "require": 5, "taskc": 3, "ind": 2, "obj": 3, "buffer": 1, "bufc": 2},
+    "obj": {"task": 5, "worker": 2, "require": 5, "taskc": 3, "ind": 3, "obj": 5, "buffer": 1, "bufc": 2},
     "all": {"ind": 2, "indc": 1, "task": 5, "worker": 2, "cumulative": 1, "select": 2, "require": 6, "taskc": 5, "fol": 3,
             "optc": 1, "resc": 4, "buffer": 1, "bufc": 3},
 }
 
 
 class Gen:
-    def __init__(self, rng, profile="core", size=12, horizon_p=0.7, invalid_p=0.03, thorough=False):
+    def __init__(self, rng, profile="core", size=12, horizon_p=0.7, invalid_p=0.03, thorough=False, simple=False):
         self.rng = rng
         self.w = PROFILES[profile]
         self.size = size
         self.invalid_p = invalid_p
         self.thorough = thorough
+        self.simple = simple
+        if simple:
+            horizon_p, self.invalid_p = 1.0, 0.0
         self.real = pslib.Real()
         self.script = []
-        self.horizon = rng.choice([None, 6, 7, 10, 13, 20, 30] + ([50, 100, 200] if thorough else [])) \
+        self.horizon = rng.choice([6, 7, 10, 13, 20, 30] + ([50, 100, 200] if thorough and not simple else [])) \
             if rng.random() < horizon_p else None
+        if simple:
+            self.horizon = rng.choice([6, 8, 10, 12])
         self.nt = self.nw = self.nc = self.nb = 0
         self.kinds = {}      # distribution of declaration kinds (for evidence)
 
@@ -112,8 +117,8 @@ class Gen:
     def g_worker(self):
         rng = self.rng
         self.nw += 1
-        cost = rng.choice([("const", 0), ("const", 0), ("const", 1), ("const", 5), ("linear", 2, 3), ("linear", 0, 4),
-                           ("poly", [1, 0, 2])])
+        cost = rng.choice([("const", 0), ("const", 0), ("const", 1), ("const", 5), ("linear", 2, 3), ("linear", 0, 4)] +
+                          ([] if self.simple else [("poly", [1, 0, 2])]))
         self.emit({"op": "worker", "name": f"W{self.nw}", "prod": rng.choice([1, 1, 1, 0, 2, 3]), "cost": cost})
 
     def g_cumulative(self):
@@ -361,7 +366,7 @@ class Gen:
                 t = self.raw_term()
                 return ("+", ("tstart", ts[0]), t) if isinstance(t, int) else t
             forms.append(lambda: ("expr", f"user{len(self.real.problem.indicators)}", nonlit(),
-                                  rng.choice([None, None, (0, 9), (0, 100)])))
+                                  None if self.simple else rng.choice([None, (0, 9), (0, 30), (0, 100)])))
         if res:
             r = rng.choice(res)
             forms += [lambda: ("utilization", r), lambda: ("nbTasksAssigned", r), lambda: ("idle", r),
@@ -404,9 +409,10 @@ class Gen:
                  lambda: ("startLatest", rng.choice([None, ts[:2] or None])), lambda: ("startEarliest",),
                  lambda: ("greatestStart", rng.choice([None, ts[:2] or None]))]
         if n:
-            forms += [lambda: ("maximizeIndicator", rng.randrange(n), rng.choice([1, 1, 2, 3])),
-                      lambda: ("minimizeIndicator", rng.randrange(n), rng.choice([1, 1, 2, 5]))] * 2
+            forms += [lambda: ("maximizeIndicator", rng.randrange(n), rng.choice([1, 2, 3])),
+                      lambda: ("minimizeIndicator", rng.randrange(n), rng.choice([1, 2, 5]))] * 4
         if res:
+            forms += [lambda: ("resourceUtilization", rng.choice(res))] * 2
             forms += [lambda: ("resourceUtilization", rng.choice(res)),
                       lambda: ("resourceCost", rng.sample(res, rng.randint(1, min(2, len(res)))))]
         if self.real.buffers:
@@ -432,8 +438,8 @@ class Gen:
         return self.script
 
 
-def gen_script(seed, profile="core", size=12, thorough=False):
+def gen_script(seed, profile="core", size=12, thorough=False, simple=False):
     rng = random.Random(seed)
-    g = Gen(rng, profile, size=size, thorough=thorough)
+    g = Gen(rng, profile, size=size, thorough=thorough, simple=simple)
     s = g.run()
     return s, g.kinds
